@@ -263,12 +263,11 @@ def normalize_depth_variables(
             )
         dimension = variable.dims[0]
 
+        # Read the current sign from the working copy, not from the input:
+        # this coordinate may already have been normalised by an earlier entry
         new_variable = new_dataset[name]
-        if positive_down is not None:
-            new_variable.attrs['positive'] = 'down' if positive_down else 'up'
-
-        if 'positive' in variable.attrs:
-            positive_attr = variable.attrs.get('positive')
+        if 'positive' in new_variable.attrs:
+            positive_attr = new_variable.attrs.get('positive')
             # The attribute is not case sensitive, see `Convention.depth_coordinates`
             data_positive_down = (str(positive_attr).lower() == 'down')
         else:
@@ -277,14 +276,17 @@ def normalize_depth_variables(
             # however it is a very common violation and we can make a good guess.
             # This is a _depth_ variable.
             # If there are more values >0 than <0, positive is probably down.
-            total_values = len(variable.values)
-            positive_values = len(variable.values[variable.values > 0])
+            total_values = len(new_variable.values)
+            positive_values = len(new_variable.values[new_variable.values > 0])
             data_positive_down = positive_values > (total_values / 2)
 
             warnings.warn(
                 f"Depth variable {name!r} had no 'positive' attribute, "
                 f"guessing `positive: {'down' if data_positive_down else 'up'!r}`",
                 stacklevel=2)
+
+        if positive_down is not None:
+            new_variable.attrs['positive'] = 'down' if positive_down else 'up'
 
         if positive_down is not None and data_positive_down != positive_down:
             # Reverse the polarity
